@@ -191,6 +191,41 @@ func c07Eval(c *fw.Ctx, data any) {
 				}
 			}
 		}
+		// bundle-adds nested d levels deep around an innermost message that is valid, of an unknown type, truncated or
+		// random: recursion depth and repeated work per level must stay proportional to the input
+		for _, depth := range []int{1, 2, 3, 8, 16, 25, 32, 48, 100, 400, 2600} {
+			for variant := 0; variant < 6; variant++ {
+				var inner []byte
+				switch variant {
+				case 0:
+					inner = []byte{4, 2, 0, 8, 0, 0, 0, 1}
+				case 1:
+					inner = []byte{4, 99, 0, 8, 0, 0, 0, 1}
+				case 2:
+					inner = []byte{4, 14, 0, 8, 0, 0, 0, 1}
+				case 3:
+					inner = r.Bytes(16)
+				case 4:
+					inner = []byte{4, 14, 0, 56, 0, 0, 0, 1}
+				default:
+					inner = []byte{4, 2, 0, 0, 0, 0, 0, 1} // embedded header length left unset
+				}
+				frame := inner
+				for d := 0; d < depth && len(frame)+24 <= 65535; d++ {
+					w := make([]byte, 24, 24+len(frame))
+					w[0], w[1] = 4, 4
+					binary.BigEndian.PutUint16(w[2:], uint16(24+len(frame)))
+					binary.BigEndian.PutUint32(w[4:], uint32(d))
+					binary.BigEndian.PutUint32(w[8:], 0x4f4e4600)
+					binary.BigEndian.PutUint32(w[12:], 2301)
+					binary.BigEndian.PutUint32(w[16:], uint32(d))
+					frame = append(w, frame...)
+				}
+				if !t.run("nested-bundle", frame) {
+					return
+				}
+			}
+		}
 		// random bytes behind each valid (version, type) pair
 		for typ := 0; typ < 30; typ++ {
 			for _, n := range []int{8, 16, 24, 32, 40, 56, 64, 72, 128, 1024} {
